@@ -193,7 +193,11 @@ def run(chk):
     for (q, r), o, dd in zip([(q, r) for q in range(4) for r in range(2)], outs, dec):
         got = Frame.ack(q, bool(r)).serialize()
         chk.note_case(("ack", q, r))
-        f, rest = Frame.deserialize(got)
+        try:
+            f, rest = Frame.deserialize(got)
+        except Exception as e:  # noqa  the library's own decoder refuses the acknowledgement it built
+            bad = (q, r, hexs(got), o, "library decoder raised %s" % type(e).__name__)
+            continue
         if hexs(got) != o or not dd.startswith("F(5,%d," % (1 | (q << 4) | (2 if r else 0))) or not dd.endswith(",ack,-,-) 0") \
                 or rest != b"" or not f.is_ack:
             bad = (q, r, hexs(got), o, dd)
